@@ -1,5 +1,4 @@
 import Spec.Txn
-import Model.Online.Run
 /-!
 # C18 — offline scripts frame transactions correctly
 
@@ -343,13 +342,6 @@ example : framingOk ⟨false, true, true⟩ [⟨[], 1, false⟩] [.begin, .runni
 
 /-! ### several `configure()` calls in one env.py run (the multidb template) -/
 open Model.Online (ConfigureArgs CtxOpts configureCall configureAll effective)
-
-/-- the configuration of the context the last of several `configure()` calls of one env.py run makes
-    (`EnvironmentContext.context_opts` is shared between the calls), for a dialect whose own
-    `transactional_ddl` is `dflt` -/
-def lastCfg (dflt : Bool) (calls : List ConfigureArgs) (a : ConfigureArgs) : Cfg :=
-  let e := effective dflt (configureAll {} (calls ++ [a]))
-  { tddl := e.1, perMig := e.2 }
 
 /-- **multidb, every call**: whatever was configured before, the script of each call satisfies
     the framing specification *for the setting that call ended up with* -/
